@@ -14,6 +14,7 @@ import csv
 import io
 import itertools
 import os
+import re
 
 from harness import core
 from harness import translate_py_csv as tr
@@ -192,6 +193,15 @@ def replay(rp):
 # ---------------------------------------------------------------------------
 def run(ctx):
     parse, gen = impl()
+    if ctx.proof is not None and getattr(ctx.proof, "failed", None):
+        # say where the proof step broke (with a regenerated Gen/CsvPy.lean this is normally Proofs/CsvGenEq.lean:
+        # the translated source no longer equals the model)
+        log = ctx.proof.build_log or ""
+        ctx.extra["proof_step"] = {
+            "modules_with_errors": sorted(set(re.findall(r"^- (N0Verif\.\S+)", log, re.M))),
+            "first_errors": [l[:240] for l in log.split("\n") if l.startswith("error: N0Verif")][:6],
+            "generated_text_differs_from_unchanged_code": ctx.extra.get("translated", {}).get("differs_from_unchanged_code"),
+        }
     n = ctx.budget(4000, 120000)
     # ---- B1: generator and writer models
     rng = ctx.rng("gen")
